@@ -2,13 +2,35 @@
 //!
 //! `B cap=<c> cols=<k> progs=<ops of t0|ops of t1|..> trace=<tid.site.arg,..> results=<results of t0|..>`
 //! ops: `p<v>` push, `e<reported>:<v.v.v>` extend, `g<i>` get, `c` count, `s<start>` snapshot
+//!
+//! C11 under the same schedules: the items count their drops; after the threads are done and the last handle is gone every
+//! item that was created must have been dropped exactly once (`drops=ok`, or the ids that were never / more than once dropped).
 use nucleo::verif::Vec as BVec;
 use nucleo::Utf32String;
 use nucleo_verif_harness::sched::Sched;
 use nucleo_verif_harness::util::*;
 use std::io::{BufWriter, Write};
 use std::panic::{catch_unwind, AssertUnwindSafe};
+use std::sync::atomic::{AtomicU32, Ordering};
 use std::sync::Arc;
+
+const IDS: usize = 1 << 14;
+static CREATED: [AtomicU32; IDS] = [const { AtomicU32::new(0) }; IDS];
+static DROPPED: [AtomicU32; IDS] = [const { AtomicU32::new(0) }; IDS];
+
+/// an item that counts its drops (values are unique within a case)
+struct Item(u32);
+impl Item {
+    fn new(v: u32) -> Item {
+        CREATED[v as usize % IDS].fetch_add(1, Ordering::SeqCst);
+        Item(v)
+    }
+}
+impl Drop for Item {
+    fn drop(&mut self) {
+        DROPPED[self.0 as usize % IDS].fetch_add(1, Ordering::SeqCst);
+    }
+}
 
 #[derive(Clone, Debug)]
 enum Op {
@@ -24,9 +46,9 @@ struct LyingIter {
     it: std::vec::IntoIter<u32>,
 }
 impl Iterator for LyingIter {
-    type Item = u32;
-    fn next(&mut self) -> Option<u32> {
-        self.it.next()
+    type Item = Item;
+    fn next(&mut self) -> Option<Item> {
+        self.it.next().map(Item::new)
     }
 }
 impl ExactSizeIterator for LyingIter {
@@ -35,7 +57,8 @@ impl ExactSizeIterator for LyingIter {
     }
 }
 
-fn fill(v: &u32, cols: &mut [Utf32String]) {
+fn fill(v: &Item, cols: &mut [Utf32String]) {
+    let v = v.0;
     for (j, c) in cols.iter_mut().enumerate() {
         *c = format!("{v}:{j}").into();
     }
@@ -45,9 +68,9 @@ fn cols_ok(v: u32, cols: &[Utf32String]) -> bool {
     cols.iter().enumerate().all(|(j, c)| c.to_string() == format!("{v}:{j}"))
 }
 
-fn run_op(vec: &BVec<u32>, op: &Op, ncols: usize) -> String {
+fn run_op(vec: &BVec<Item>, op: &Op, ncols: usize) -> String {
     match op {
-        Op::Push(v) => format!("{}", vec.push(*v, fill)),
+        Op::Push(v) => format!("{}", vec.push(Item::new(*v), fill)),
         Op::Extend(rep, vals) => {
             let it = LyingIter { len: *rep, it: vals.clone().into_iter() };
             match catch_unwind(AssertUnwindSafe(|| vec.extend(it, fill))) {
@@ -58,10 +81,10 @@ fn run_op(vec: &BVec<u32>, op: &Op, ncols: usize) -> String {
         Op::Get(i) => match vec.get(*i) {
             None => "none".to_string(),
             Some(item) => {
-                if item.matcher_columns.len() == ncols && cols_ok(*item.data, item.matcher_columns) {
-                    format!("{}", item.data)
+                if item.matcher_columns.len() == ncols && cols_ok(item.data.0, item.matcher_columns) {
+                    format!("{}", item.data.0)
                 } else {
-                    format!("{}!badcols", item.data)
+                    format!("{}!badcols", item.data.0)
                 }
             }
         },
@@ -76,7 +99,7 @@ fn run_op(vec: &BVec<u32>, op: &Op, ncols: usize) -> String {
                         .iter()
                         .map(|(i, it)| match it {
                             None => format!("{i}:n"),
-                            Some(item) => format!("{i}:{}{}", item.data, if cols_ok(*item.data, item.matcher_columns) { "" } else { "!badcols" }),
+                            Some(item) => format!("{i}:{}{}", item.data.0, if cols_ok(item.data.0, item.matcher_columns) { "" } else { "!badcols" }),
                         })
                         .collect();
                     format!("{end};{}", if xs.is_empty() { "-".to_string() } else { xs.join("+") })
@@ -156,7 +179,11 @@ fn run_case(out: &mut impl Write, rng: &mut Rng) {
     let cap = *rng.pick(&[0u32, 1, 33, 1024]);
     let ncols = 1 + rng.below(3) as u32;
     let progs = gen_progs(rng, nthreads, cap);
-    let vec = Arc::new(BVec::<u32>::with_capacity(cap, ncols));
+    for k in 0..IDS {
+        CREATED[k].store(0, Ordering::SeqCst);
+        DROPPED[k].store(0, Ordering::SeqCst);
+    }
+    let vec = Arc::new(BVec::<Item>::with_capacity(cap, ncols));
     let sched = Sched::new(nthreads);
     sched.install();
     let mut handles = Vec::new();
@@ -195,10 +222,26 @@ fn run_case(out: &mut impl Write, rng: &mut Rng) {
     Sched::uninstall();
     // quiescent view after all threads are done
     let fin_count = vec.count();
-    let fin: Vec<String> = (0..fin_count.min(400)).map(|i| match vec.get(i) { None => "n".to_string(), Some(it) => it.data.to_string() }).collect();
+    let fin: Vec<String> = (0..fin_count.min(400)).map(|i| match vec.get(i) { None => "n".to_string(), Some(it) => it.data.0.to_string() }).collect();
+    // C11: the threads (and their handles) are gone; dropping the last handle must destroy every created item exactly once
+    drop(vec);
+    let (mut never, mut twice) = (Vec::new(), Vec::new());
+    for k in 0..IDS {
+        let (c, d) = (CREATED[k].load(Ordering::SeqCst), DROPPED[k].load(Ordering::SeqCst));
+        if d < c {
+            never.push(k.to_string());
+        } else if d > c {
+            twice.push(k.to_string());
+        }
+    }
+    let drops = if never.is_empty() && twice.is_empty() {
+        "ok".to_string()
+    } else {
+        format!("never:{}/twice:{}", if never.is_empty() { "-".to_string() } else { never.join(".") }, if twice.is_empty() { "-".to_string() } else { twice.join(".") })
+    };
     writeln!(
         out,
-        "B cap={} cols={} progs={} trace={} results={} final={};{}",
+        "B cap={} cols={} progs={} trace={} results={} final={};{} drops={}",
         cap,
         ncols,
         progs.iter().map(|p| p.iter().map(op_str).collect::<Vec<_>>().join(",")).collect::<Vec<_>>().join("|"),
@@ -206,6 +249,7 @@ fn run_case(out: &mut impl Write, rng: &mut Rng) {
         results.iter().map(|r| r.join(",")).collect::<Vec<_>>().join("|"),
         fin_count,
         if fin.is_empty() { "-".to_string() } else { fin.join(".") },
+        drops,
     )
     .unwrap();
 }
@@ -247,11 +291,11 @@ fn main() {
             nucleo::verif::set_callback(None);
             for k in [0u32, 3, 40] {
                 for extra in [0u32, 1, 7] {
-                    let vec: BVec<u32> = BVec::with_capacity(0, 1);
+                    let vec: BVec<Item> = BVec::with_capacity(0, 1);
                     let mut ops: Vec<String> = Vec::new();
                     let mut completed = 0u32;
                     for v in 0..k {
-                        vec.push(v, fill);
+                        vec.push(Item::new(v), fill);
                         completed += 1;
                     }
                     ops.push(format!("c{}:{}", vec.count(), completed));
@@ -262,7 +306,7 @@ fn main() {
                     ops.push(format!("e{}:{}", claim, if r.is_ok() { "ok" } else { "panic" }));
                     ops.push(format!("c{}:{}", vec.count(), completed));
                     for j in 0..(extra + 3) {
-                        let r = catch_unwind(AssertUnwindSafe(|| vec.push(1000 + j, fill)));
+                        let r = catch_unwind(AssertUnwindSafe(|| vec.push(Item::new(1000 + j), fill)));
                         ops.push(format!("p:{}", match r { Ok(i) => i.to_string(), Err(_) => "panic".to_string() }));
                         ops.push(format!("c{}:{}", vec.count(), completed));
                     }
